@@ -32,7 +32,7 @@ CLAIMED = {
             "Trusted: refpeg evaluation counting (pinned against Stats.ExprCnt on every plain run). Known finding KF-C06-MEMOLABEL excluded by an oracle-side predicate.", "DESIGN.md 3/C06"),
     "C09": ("batch", "differential PBT: parser generated with -optimize-grammar vs. without, normal-form comparison; unoptimized side tied to the reference interpreter",
             "Bounded generated search over optimizer-bait grammars (shared leaf rules, nested choices/sequences, mergeable literals and classes) x protected entry sets x inputs; same language, consumed prefix, action trace and values up to the regrouping the property allows.",
-            "Trusted: the normal form (flatten action-less nesting, drop nils, concatenate byte runs). Grammars whose optimized output does not compile are excluded and counted (C04's subject).", "DESIGN.md 3/C09"),
+            "Trusted: the normal form (flatten action-less nesting, drop nils, concatenate byte runs). Grammars whose optimized output does not compile are excluded and counted (C04's subject). Known findings KF-C09-INLINESCOPE and KF-C09-ICFOLD (the optimizer's face of KF-C15-ICLOWER) excluded by predicates over the grammar and the flags.", "DESIGN.md 3/C09"),
     "C10": ("batch", "differential PBT: (X, X + -optimize-parser) parser pairs on the same cases",
             "Bounded generated search over the union of profiles x flag pairs x inputs x fault plans; identical value, error text, panic behaviour and code-block traces incl. state snapshots.",
             "Differential: defects common to both parsers are invisible here (other properties tie each side to the reference).", "DESIGN.md 3/C10"),
